@@ -27,6 +27,7 @@ RULE = (
     "Identifier scan: service in {0x22, 0x27, 0x2E, 0x31}, ranges of width <= 400 at offsets incl. 0, 0x7F/0x80, 0xFFFF, payloads, skip "
     "maps; the 'Positive / Abnormal / Timeouts' tallies per session must equal what the ECU actually answered to the exact probe PDUs "
     "(every identifier x sub-function of the range probed in the claimed session, 0x27 clamped to 0x7F, RoutineControl with its three "
+    "A third of the cases pass skip as a ready-made mapping with lists in descending order. "
     "sub-functions). Non-trivial: >= 2 sessions scanned, or a non-empty skip map, or both positive and negative identifiers in range. "
     "Distinct by configuration."
 )
